@@ -269,6 +269,20 @@ class StoreBackendMixin(object):
         func_path = os.path.join(self.location, *call_id)
         return self.object_exists(func_path)
 
+    def contains_results(self, call_id):
+        """Check if some results are stored under a path of the store."""
+        func_path = os.path.join(self.location, *call_id)
+        try:
+            return any(
+                os.path.isdir(os.path.join(func_path, name))
+                for name in os.listdir(func_path)
+            )
+        except FileNotFoundError:
+            return False
+        except OSError:
+            # Cannot tell: assume there are some.
+            return True
+
     def clear_path(self, call_id):
         """Clear all items with a common path in the store."""
         func_path = os.path.join(self.location, *call_id)
